@@ -9,7 +9,7 @@ STD = ["bounds-check", "pointer-check", "signed-overflow-check", "div-by-zero-ch
 units = []
 
 
-def unit(id, clause, entry, harness, cls="proved", tier="quick", mode="dfcc", checks=STD, timeout=120, **kw):
+def unit(id, clause, entry, harness, cls="proved", tier="quick", mode="dfcc", checks=STD, timeout=300, **kw):
     u = {"id": id, "props": ["C11"], "tier": tier, "class": cls, "clause": clause, "src": ["parse.c"], "harness": harness,
          "entry": entry, "mode": mode, "checks": checks, "timeout": timeout}
     u.update(kw)
